@@ -6,6 +6,7 @@ package gen
 // before using it.
 
 import (
+	"fmt"
 	"sort"
 	"strings"
 )
@@ -224,5 +225,31 @@ func (v *V) ValidSwagger() map[string]any {
 	v.repairValid("swagger", "", doc)
 	v.extensions(doc, "swagger", "")
 	_ = strings.TrimSpace
+	if Pct(v.T, "long chain", 4) {
+		// a long, well-founded chain of parameter (or response) references: the shared sections cannot hold
+		// references in a valid document, so the chain hops through operation-level entries
+		paths, _ := doc["paths"].(map[string]any)
+		if paths == nil {
+			paths = map[string]any{}
+			doc["paths"] = paths
+		}
+		n := 6 + Uniform(v.T, "chainlen", 10)
+		viaResponses := Pct(v.T, "chain of responses", 40)
+		for i := 0; i <= n; i++ {
+			op := map[string]any{"responses": map[string]any{"200": map[string]any{"description": "ok"}}}
+			next := fmt.Sprintf("#/paths/~1chain%d/get", i+1)
+			switch {
+			case viaResponses && i < n:
+				op["responses"] = map[string]any{"200": map[string]any{"$ref": next + "/responses/200"}}
+			case viaResponses:
+				op["responses"] = map[string]any{"200": map[string]any{"description": "end of the chain", "schema": map[string]any{"type": "string"}}}
+			case i < n:
+				op["parameters"] = []any{map[string]any{"$ref": next + "/parameters/0"}}
+			default:
+				op["parameters"] = []any{map[string]any{"name": "end-of-chain", "in": "query", "type": "string"}}
+			}
+			paths[fmt.Sprintf("/chain%d", i)] = map[string]any{"get": op}
+		}
+	}
 	return doc
 }
